@@ -6,24 +6,25 @@ import vlib
 ERAS = ["alonzo", "babbage", "conway", "dijkstra"]
 
 
-def _self_test(chk, drv, views, rules_path):
+def _self_test(chk, drv, views, rules_path, flag_path):
     """Binding self-test: flip the verdict of one accepting and one rejecting
-    row of the decision table and require the replay to report both."""
+    row of the decision table, and of one accepting and one rejecting row of the
+    flagged (is_valid = false) table, and require the replay to report all."""
     rows = vlib.read_ndjson(rules_path)
     picks, origs, want = [], [], set()
-    for decl, flip in (("right", False), ("laterIndef", True)):
+    for decl, flip, p2 in (("right", False, False), ("laterIndef", True, False), ("right", False, True), ("random", True, True)):
         for r in rows:
             if (r["L"] == [1] and r["shape"] == "short" and r["red"] and r["datf"] == "list" and r["decl"] == decl
-                    and "babbage" in r["eras"]):
+                    and bool(r.get("p2")) == p2 and r.get("binding") == "both" and "babbage" in r["eras"]):
                 if r["accept"] == flip:
                     raise vlib.MachineryError("self-test: reference row %s has spec verdict %r" % (decl, r["accept"]))
                 q = dict(r)
                 q["accept"] = flip
                 picks.append(q)
                 origs.append(r)
-                want.add("rule:era=babbage:L=1:shape=short:red=1:dat=list:decl=%s:at=func" % decl)
+                want.add("rule:era=babbage:L=1:shape=short:red=1:dat=list:decl=%s%s:at=func" % (decl, ":p2invalid" if p2 else ""))
                 break
-    if len(picks) != 2:
+    if len(picks) != 4:
         raise vlib.MachineryError("self-test: reference rows (L = {V2}, short, redeemers and datums) not in the TLC output")
     d = vlib.scratch("c31-self-")
     reported = []
@@ -33,7 +34,7 @@ def _self_test(chk, drv, views, rules_path):
         probe = vlib.Check(chk.pid, chk.tier, chk.seed)
         # the driver cross-checks the declared hash against the row's verdict itself;
         # VERIF_SELFTEST switches that guard off for the flipped rows
-        vlib.run_driver(probe, drv, ["rules", "babbage", views, p], timeout=120, env={"VERIF_SELFTEST": "1"})
+        vlib.run_driver(probe, drv, ["rules", "babbage", views, p, flag_path], timeout=120, env={"VERIF_SELFTEST": "1"})
         reported.append(set([k for k, _, _ in probe.violations] + [k for _, k, _ in probe.known_hits]))
         for _, _, path in probe.violations:     # the probe must not leave replay files behind
             if path and os.path.exists(path):
@@ -45,7 +46,8 @@ def _self_test(chk, drv, views, rules_path):
     if bad:
         raise vlib.MachineryError("self-test: flipping the verdict did not change the report for %r (orig %r, flipped %r)"
                                   % (bad, sorted(reported[0]), sorted(reported[1])))
-    chk.extra["binding_self_test"] = ("flipping the verdicts of (babbage, {V2}, right / indefinite-list hash) flips the report: %s"
+    chk.extra["binding_self_test"] = ("flipping the verdicts of (babbage, {V2}, right / indefinite-list hash; flagged is_valid = false, "
+                                      "right / random hash) flips the report: %s"
                                       % sorted(want))
 
 
@@ -59,7 +61,11 @@ def run(chk, replay=None):
                 "exactly when it applies. The tokens are rendered by an independent writer and compared with "
                 "common.EncodeLangViews; every table row is executed on real Alonzo..Dijkstra transactions with the declared "
                 "hash computed (Blake2b-256) in the driver; a case is one (L, shape, values, models) view or one (era, L, shape, "
-                "redeemers, datum field, declared) row; all are non-trivial")
+                "redeemers, datum field, declared) row; all are non-trivial. The phase-2 flag is a dimension of the table "
+                "(field p2; quick: the flagged table for the shape in P2Shapes, thorough: for every shape): the specification "
+                "proves that verdict, reason, right and declared term do not read it (FlagIrrelevant), and the flagged rows run on "
+                "transactions with is_valid = false (Alonzo..Conway: third element of the envelope; Dijkstra: the flag the block "
+                "decoder assigns to a member of invalid_transactions), keys ending in :p2invalid")
     chk.assumptions = [
         "Blake2b-256 is collision free (hashes are terms in the model; the driver checks that the real declared hash equals "
         "the real right hash exactly when the model accepts)",
@@ -68,6 +74,10 @@ def run(chk, replay=None):
         "the redeemer bytes of a transaction without redeemers are the era's empty encoding (0x80 Alonzo/Babbage, 0xa0 "
         "Conway/Dijkstra), as in the reference ledger",
         "only accept/reject is judged; the error type is recorded (rule_rows_by_spec_reason_and_code_error)",
+        "a flagged transaction without redeemers is rejected by the flag rule whatever this rule says: on those rows only "
+        "'the table rejects => the rule rejects' is judged (binding = rejectOnly; over-rejections are counted in flagged_rows)",
+        "a Dijkstra transaction cannot encode is_valid = false; the driver flags the decoded transaction with the assignment the "
+        "Dijkstra block decoder makes for members of invalid_transactions (TxIsValid = false)",
         "the rule list is observed entry by entry (only the script-data-hash error types are read); the rest of the "
         "transaction is not made valid for the other rules",
     ]
@@ -79,16 +89,20 @@ def run(chk, replay=None):
     chk.add_tlc(cfg, r)
     views = os.path.join(r.dir, "views.ndjson")
     rules = os.path.join(r.dir, "rules.ndjson")
+    flag = os.path.join(r.dir, "flag.ndjson")
     counts = {}
     for n, p in (("views", views), ("rules", rules)):
         with open(p) as f:
             counts[n] = sum(1 for line in f if line.strip())
+    counts["rules_flagged"] = sum(1 for row in vlib.read_ndjson(rules) if row.get("p2"))
+    if not counts["rules_flagged"] or not os.path.exists(flag):
+        raise vlib.MachineryError("LangViews: no flagged (p2) rule rows / flag.ndjson in the TLC output")
     chk.extra["tlc_rows"] = counts
 
     drv = vlib.go_build("c31")
-    _self_test(chk, drv, views, rules)
+    _self_test(chk, drv, views, rules, flag)
     vlib.run_driver(chk, drv, ["views", views], timeout=600)
     for era in ERAS:
         # one process per era: vh caps the disagreements of one process
-        vlib.run_driver(chk, drv, ["rules", era, views, rules], timeout=600)
+        vlib.run_driver(chk, drv, ["rules", era, views, rules, flag], timeout=600)
     chk.exhaustive = False
